@@ -35,6 +35,8 @@ type genCtx struct {
 	phase3 bool // JWT / templates / experimental keys
 	// constants used by the policies of the current case, per attribute
 	used map[string][]string
+	// generating a rule of a CUSTOM policy: validation forbids the peer / JWT identity fields there
+	customRule bool
 }
 
 func (g *genCtx) note(kind string, vs ...string) { g.used[kind] = append(g.used[kind], vs...) }
@@ -265,6 +267,19 @@ func (g *genCtx) genFrom() string {
 	}
 	useSA := r.Chance(1, 4)
 	n := 0
+	if g.customRule && g.valid {
+		for n == 0 {
+			if r.Chance(1, 2) {
+				add("ip", "nip", g.ipBlock)
+				n++
+			}
+			if r.Chance(1, 2) {
+				add("rip", "nrip", g.ipBlock)
+				n++
+			}
+		}
+		return "from " + strings.Join(fs, " ")
+	}
 	for n == 0 {
 		if !useSA && r.Chance(1, 3) {
 			add("pr", "npr", g.principal)
@@ -342,7 +357,12 @@ func (g *genCtx) genWhen() string {
 	r := g.r
 	var key string
 	var f func() string
-	switch x := r.Intn(100); {
+	x := r.Intn(100)
+	if g.customRule && g.valid {
+		// keys validation accepts for CUSTOM: headers, ips, destination.*, connection.sni
+		x = []int{0, 10, 26, 35, 70, 78, 85}[r.Intn(7)]
+	}
+	switch {
 	case x < 25:
 		h := wire.Pick(r, poolHName)
 		g.note("hname", h)
@@ -415,6 +435,7 @@ func (g *genCtx) genRule() []string {
 }
 
 type genOpts struct {
+	custom  bool
 	valid   bool
 	phase3  bool
 	aliases bool
@@ -434,6 +455,9 @@ func (g *genCtx) genPolicies(o genOpts) []string {
 		}
 		lines = append(lines, "td "+wire.EncList(wire.Pick(r, tds)))
 	}
+	if o.custom && r.Chance(1, 2) {
+		lines = append(lines, "custom "+wire.EncList(wire.Pick(r, [][]string{{"default"}, {"default", "p2"}, {"p2"}, {}}))+" "+wire.B(r.Chance(1, 3)))
+	}
 	wlLabels := []string{"app=httpbin", "version=v1"}
 	if o.sel {
 		lines = append(lines, "wl istio-system foo "+wire.EncList(wlLabels))
@@ -449,6 +473,8 @@ func (g *genCtx) genPolicies(o genOpts) []string {
 			action = "DENY"
 		case x < 42 && o.audit:
 			action = "AUDIT"
+		case x < 52 && o.custom:
+			action = "CUSTOM"
 		}
 		ns := "foo"
 		if r.Chance(1, 4) {
@@ -465,10 +491,21 @@ func (g *genCtx) genPolicies(o genOpts) []string {
 		if o.sel && r.Chance(1, 3) {
 			sel = wire.EncList(wire.Pick(r, [][]string{{"app=httpbin"}, {"app=other"}, {"app=httpbin", "version=v1"}, {"version=v2"}}))
 		}
-		lines = append(lines, fmt.Sprintf("pol %s %s %s %s ~ %s", action, ns, fmt.Sprintf("p%d", i), dry, sel))
+		prov := "~"
+		if action == "CUSTOM" {
+			prov = wire.Pick(r, []string{"default", "default", "default", "p2", "missing"})
+			if !g.valid && r.Chance(1, 10) {
+				prov = "~"
+			}
+		}
+		lines = append(lines, fmt.Sprintf("pol %s %s %s %s %s %s", action, ns, fmt.Sprintf("p%d", i), dry, prov, sel))
+		g.customRule = action == "CUSTOM"
 		nr := 1 + r.Intn(2)
 		if action == "ALLOW" && r.Chance(1, 8) {
 			nr = 0 // allow-nothing policy
+		}
+		if action == "CUSTOM" && !g.valid && r.Chance(1, 8) {
+			nr = 0
 		}
 		if r.Chance(1, 10) {
 			nr = 3
@@ -476,6 +513,7 @@ func (g *genCtx) genPolicies(o genOpts) []string {
 		for j := 0; j < nr; j++ {
 			lines = append(lines, g.genRule()...)
 		}
+		g.customRule = false
 	}
 	return lines
 }
@@ -488,7 +526,7 @@ func gen(stream string, seed uint64, n int, outp string) {
 	for c := 0; c < n; c++ {
 		r := root.Fork()
 		g := &genCtx{r: r, out: out, used: map[string][]string{}}
-		o := genOpts{audit: true, dryRun: true, sel: r.Chance(1, 3)}
+		o := genOpts{audit: true, dryRun: true, sel: r.Chance(1, 3), custom: r.Chance(1, 2)}
 		switch stream {
 		case "compile":
 			o.valid = r.Chance(1, 2)
